@@ -26,6 +26,9 @@ def run(ctx):
     a_b_conversion(ctx)
     layout_facts(ctx)
     loop_progress(ctx)
+    layout_hash_inputs(ctx)
+    positions_agree(ctx)
+    result_types(ctx)
     v1_insert_progress(ctx)
     if ctx.thorough:
         c_regexes(ctx)
@@ -81,6 +84,25 @@ def a_b_conversion(ctx):
                       "handler `except %s` ends by raising ColangParsingError whose message contains the file path `%s`" % (hname, pathvar), line=h.lineno)
             if h.name:
                 _handler_totality(ctx, cg, CFGPY, fn, h)
+    # imports written in a file are part of its content: resolving them must fail as a parsing error naming that file
+    imps = [c for c in walk_no_nested(fn) if isinstance(c, ast.Call) and src(c.func) == "_load_imported_paths"]
+    ctx.floor("C13.a.conversion", CFGPY, "import resolution inside the per-file loop", len(imps), 1)
+    res = find_function(t, "_load_imported_paths")
+    raised = sorted({src(r.exc.func) for r in ast.walk(res) if isinstance(r, ast.Raise) and isinstance(r.exc, ast.Call)}) if res else []
+    for c in imps:
+        trys = [(t_, part) for t_, part in enclosing_trys(c, fn) if part == "body"]
+        ok = False
+        why = "the call is outside any try"
+        if trys:
+            tr = trys[0][0]
+            hs = [h for h in tr.handlers if h.type is None or src(h.type) in raised + ["Exception"] or any(src(x) in raised for x in (h.type.elts if isinstance(h.type, ast.Tuple) else []))]
+            conv = [h for h in hs if any(isinstance(r, ast.Raise) and isinstance(r.exc, ast.Call) and src(r.exc.func) == "ColangParsingError"
+                                         and any(isinstance(n, ast.Name) and n.id == "current_path" for n in ast.walk(r.exc)) for r in ast.walk(h))]
+            ok = bool(conv)
+            why = "a handler for %s raises ColangParsingError naming current_path" % raised if ok else "no handler converts %s into ColangParsingError naming the file" % raised
+        ctx.check("C13.a.conversion", CFGPY, fn.name, first_line(c), ok,
+                  "resolving the imports a file declares fails as a parsing error of that file (%s)" % why if ok else
+                  "`import <unresolvable>` in a Colang file escapes RailsConfig.from_path as %s without naming the file (%s)" % (raised, why), line=c.lineno)
 
 
 def _handler_totality(ctx, cg, rel, fn, h):
@@ -425,3 +447,95 @@ def v1_insert_progress(ctx):
                   "the synthetic line is inserted only for a `define user` line (the guard is false whenever the line is another kind of define)" if ok else
                   "the guard `%s` can be true for a define that is not `define user` (e.g. at end of file): the inserted line is then the define itself, which is processed again and inserts again - the parser never terminates on a file truncated after a define header" % first_line(i.test, 120),
                   line=i.lineno)
+
+
+CP1 = "nemoguardrails/colang/v1_0/lang/colang_parser.py"
+P1 = "nemoguardrails/colang/v1_0/lang/parser.py"
+P2 = "nemoguardrails/colang/v2_x/lang/parser.py"
+
+
+def layout_hash_inputs(ctx):
+    """Layout invariance: indentation AMOUNTS may steer the parser only through comparisons.  A name/id derived from the text (the hash that
+    names an anonymous flow) must not be data-dependent on an indentation value, or re-indenting a file by a uniform factor renames its flows."""
+    from ..pyflow import Taint
+    t = ctx.tree.ast(CP1)
+    n = 0
+    for fn in functions(t):
+        sinks = [c for c in walk_no_nested(fn) if isinstance(c, ast.Call) and src(c.func).split(".")[-1] in ("string_hash", "md5", "sha1", "sha256", "new_uuid_from")]
+        if not sinks:
+            continue
+        cfg = CFG(fn)
+        tn = Taint(cfg, lambda c: False,
+                   source_expr=lambda e: isinstance(e, ast.Subscript) and isinstance(e.slice, ast.Constant) and e.slice.value == "indentation" and isinstance(e.ctx, ast.Load),
+                   clean_calls=("len",))
+        for c in sinks:
+            n += 1
+            bad = [first_line(a, 40) for a in c.args if tn.tainted_at(cfg.node_of(c), a)]
+            ctx.check("C13.layout.hash-input", CP1, qualname(fn), first_line(c, 60), not bad,
+                      "the hashed text that names the flow does not depend on any indentation amount (indentation only steers which lines are included)" if not bad else
+                      "the hashed value %s depends on an indentation AMOUNT: the same file indented with 4 instead of 2 spaces gets different flow ids" % bad, line=c.lineno)
+    ctx.floor("C13.layout.hash-input", CP1, "content hashes that name flows", n, 1)
+
+
+def positions_agree(ctx):
+    """The Colang 2 transformer recovers expressions by slicing `source[start_pos:end_pos]` with positions Lark computed on the text it was given:
+    both must be the same string, apart from a constant suffix appended for the lexer."""
+    t = ctx.tree.ast(P2)
+    pc = find_function(t, "parse_content", "ColangParser")
+    gt = find_function(t, "get_parsing_tree", "ColangParser")
+    if pc is None or gt is None:
+        raise AnalysisError("ColangParser.parse_content / get_parsing_tree not found", anchor=P2 + "::ColangParser.parse_content")
+    tree_calls = [c for c in walk_no_nested(pc) if isinstance(c, ast.Call) and src(c.func) == "self.get_parsing_tree"]
+    trans = [c for c in walk_no_nested(pc) if isinstance(c, ast.Call) and src(c.func) == "ColangTransformer"]
+    if not tree_calls or not trans:
+        raise AnalysisError("parse / transformer construction not found in parse_content", anchor=P2 + "::ColangParser.parse_content")
+    parsed = re.sub(r"\s", "", src(tree_calls[0].args[0]))
+    srckw = [k.value for k in trans[0].keywords if k.arg == "source"]
+    given = re.sub(r"\s", "", src(srckw[0])) if srckw else None
+    reassigned = [a for a in walk_no_nested(pc) if isinstance(a, (ast.Assign, ast.AugAssign)) and any(isinstance(x, ast.Name) and x.id in ("content",) for x in ast.walk(a.targets[0] if isinstance(a, ast.Assign) else a.target))]
+    ok = given is not None and parsed == given and not reassigned
+    ctx.check("C13.positions-agree", P2, "ColangParser.parse_content", "parsed text vs transformer source", ok,
+              "Lark parses `%s` and the transformer slices the same expression" % parsed if ok else
+              "Lark parses `%s` but the transformer slices `%s`: positions no longer index the same string" % (parsed, given), line=tree_calls[0].lineno)
+    # inside get_parsing_tree: parse(param + constant), the parameter untouched
+    param = gt.args.args[1].arg if len(gt.args.args) > 1 else None
+    pcalls = [c for c in walk_no_nested(gt) if isinstance(c, ast.Call) and src(c.func).endswith("_lark_parser.parse")]
+    ok = False
+    why = "no parse call"
+    if pcalls and param:
+        a = pcalls[0].args[0]
+        suffix_only = (isinstance(a, ast.Name) and a.id == param) or (isinstance(a, ast.BinOp) and isinstance(a.op, ast.Add) and isinstance(a.left, ast.Name) and a.left.id == param and isinstance(a.right, ast.Constant))
+        touched = [x for x in walk_no_nested(gt) if isinstance(x, (ast.Assign, ast.AugAssign)) and any(isinstance(y, ast.Name) and y.id == param for y in ast.walk(x.targets[0] if isinstance(x, ast.Assign) else x.target))]
+        ok = suffix_only and not touched
+        why = "the lexer receives the parameter plus a constant suffix" if ok else "the text is transformed (%s) before lexing, so token positions refer to a different string than the transformer's source" % (
+            first_line(touched[0], 60) if touched else src(a)[:60])
+    ctx.check("C13.positions-agree", P2, "ColangParser.get_parsing_tree", "text handed to the lexer", ok, why, line=gt.lineno)
+
+
+def result_types(ctx):
+    """Error clause: a bad file must fail INSIDE the region that turns exceptions into parsing errors naming the file.  What the Colang 1.0 parser returns is
+    validated later by the RailsConfig schema (outside that region), so the parser may only put schema-conform values there: bot/user messages are strings."""
+    cfgt = ctx.tree.ast(CFGPY)
+    schema = {}
+    for n in ast.walk(cfgt):
+        if isinstance(n, ast.AnnAssign) and isinstance(n.target, ast.Name) and n.target.id in ("bot_messages", "user_messages"):
+            schema[n.target.id] = re.sub(r"\s", "", src(n.annotation))
+    ctx.check("C13.a.result-types", CFGPY, "RailsConfig", "schema of bot_messages", schema.get("bot_messages") == "Dict[str,List[str]]",
+              "RailsConfig.bot_messages is Dict[str, List[str]] (the reference for the writer below): %s" % schema.get("bot_messages"), line=1)
+    t = ctx.tree.ast(P1)
+    fn = find_function(t, "parse_colang_file")
+    if fn is None:
+        raise AnalysisError("parse_colang_file (v1) not found", anchor=P1 + "::parse_colang_file")
+    n = 0
+    for c in [c for c in walk_no_nested(fn) if isinstance(c, ast.Call) and isinstance(c.func, ast.Attribute) and c.func.attr in ("append", "extend", "insert")
+              and re.match(r"bot_messages\[", src(c.func.value))]:
+        n += 1
+        a = c.args[-1]
+        is_str = (isinstance(a, ast.Subscript) and isinstance(a.slice, ast.Constant) and a.slice.value == "text") or isinstance(a, ast.JoinedStr) or \
+            (isinstance(a, ast.Constant) and isinstance(a.value, str)) or (isinstance(a, ast.Call) and src(a.func) == "str")
+        ok = is_str and c.func.attr != "extend"
+        ctx.check("C13.a.result-types", P1, "parse_colang_file", first_line(c, 70), ok,
+                  "bot messages collected by the parser are the utterances' `text` strings" if ok else
+                  "`%s` can put non-string values into bot_messages: the file then parses, and the error surfaces later as a pydantic ValidationError that does not name the file" % first_line(c, 70),
+                  line=c.lineno)
+    ctx.floor("C13.a.result-types", P1, "writers of bot_messages", n, 1)
